@@ -621,14 +621,14 @@ class BitStream(ConstBitStream, bitstring.BitArray):
 
         """
         bs = Bits._create_from_bitstype(bs)
-        if len(bs) == 0:
-            return
         if pos is None:
             pos = self._pos
         if pos < 0:
             pos += len(self)
         if pos < 0 or pos > len(self):
             raise ValueError("Overwrite starts outside boundary of bitstring.")
+        if len(bs) == 0:
+            return
         length = len(bs)  # bs might be self, whose length can be changed by the overwrite
         self._overwrite(bs, pos)
         self._pos = pos + length
@@ -675,16 +675,16 @@ class BitStream(ConstBitStream, bitstring.BitArray):
 
         """
         bs = Bits._create_from_bitstype(bs)
-        if len(bs) == 0:
-            return
-        if bs is self:
-            bs = self._copy()
         if pos is None:
             pos = self._pos
         if pos < 0:
             pos += len(self)
         if not 0 <= pos <= len(self):
             raise ValueError("Invalid insert position.")
+        if len(bs) == 0:
+            return
+        if bs is self:
+            bs = self._copy()
         self._insert(bs, pos)
         self._pos = pos + len(bs)
 
